@@ -11,6 +11,7 @@ import (
 	vesttypes "github.com/chain4energy/c4e-chain/x/cfevesting/types"
 	sdk "github.com/cosmos/cosmos-sdk/types"
 	authtypes "github.com/cosmos/cosmos-sdk/x/auth/types"
+	"github.com/cosmos/cosmos-sdk/crypto/keys/secp256k1"
 	stakingtypes "github.com/cosmos/cosmos-sdk/x/staking/types"
 )
 
@@ -21,6 +22,20 @@ func init() {
 
 func vaddr(i int) string {
 	return sdk.AccAddress([]byte(fmt.Sprintf("verif-vest-account-%02d", i))).String()
+}
+
+// address whose secp256k1 key the executor can re-derive (accounts "with a public key")
+func keyedPriv(i int) *secp256k1.PrivKey {
+	return secp256k1.GenPrivKeyFromSecret([]byte(fmt.Sprintf("verif-keyed-account-%d", i)))
+}
+func keyedAddr(i int) string { return sdk.AccAddress(keyedPriv(i).PubKey().Address()).String() }
+func keyedPubFor(addr string) *secp256k1.PubKey {
+	for i := 0; i < 16; i++ {
+		if keyedAddr(i) == addr {
+			return keyedPriv(i).PubKey().(*secp256k1.PubKey)
+		}
+	}
+	return nil
 }
 
 func atok(a string) string {
@@ -90,7 +105,7 @@ func genVest(g *Gen, n int) {
 			g.emit("v.vt %s %d %d %s", name, g.pickI(0, 3600*sec, 86400*sec, int64(g.intn(100000))*sec+int64(g.intn(1000)), 73000*86400*sec),
 				g.pickI(0, 86400*sec, 365*86400*sec, int64(g.intn(10000000))*sec, 73000*86400*sec), genFree(g))
 		}
-		owners := []string{vaddr(0), vaddr(1), vaddr(2)}
+		owners := []string{vaddr(0), vaddr(1), keyedAddr(0)}
 		fresh := 3
 		for _, o := range owners {
 			if g.chance(0.85) {
@@ -98,7 +113,7 @@ func genVest(g *Gen, n int) {
 			}
 		}
 		if g.chance(0.3) {
-			g.emit("v.acct %s basekey", owners[g.intn(3)])
+			g.emit("v.acct %s basekey", owners[2])
 		}
 		var pools []gPool
 		var cvas []string
